@@ -14,10 +14,12 @@ class FakeDevice:
         self.eof = 0
         self.total = 0
         self.mode = "ok"
+        self.writers = []
 
     async def handle(self, reader, writer):
         self.open += 1
         self.total += 1
+        self.writers.append(writer)
         try:
             while True:
                 data = await reader.read(1024)
@@ -27,6 +29,9 @@ class FakeDevice:
                 if self.mode == "ok":
                     writer.write(bytes(44))
                     await writer.drain()
+                elif self.mode == "half_close":
+                    # the device finishes its side first but keeps reading: it must still see the client's end-of-stream
+                    writer.write_eof()
                 else:
                     writer.close()
                     break
@@ -72,7 +77,7 @@ async def run_history(kind, seq):
             elif a in ("op_ok", "op_raise"):
                 if not model:
                     continue
-                dev.mode = "ok" if a == "op_ok" else "drop"
+                dev.mode = "ok" if a == "op_ok" else ("drop" if n % 2 else "half_close")
                 try:
                     if a == "op_ok":
                         await (api.control_device(Command.ON) if kind == 1 else api.stop())
@@ -95,8 +100,11 @@ async def run_history(kind, seq):
             await asyncio.sleep(0.01)
             if api.connected != model:
                 problems.append(f"step {n} {a}: connected={api.connected}, expected {model}")
+            w = getattr(api, "_writer", None)
+            if not model and w is not None and not w.transport.is_closing():
+                problems.append(f"step {n} {a}: the client's socket is still open after disconnect")
             if not model and dev.open != 0:
-                await asyncio.sleep(0.05)
+                await asyncio.sleep(0.1)
                 if dev.open != 0:
                     problems.append(f"step {n} {a}: device still has {dev.open} open connection(s) after disconnect")
     finally:
@@ -105,7 +113,15 @@ async def run_history(kind, seq):
         except Exception:
             pass
         server.close()
-        await server.wait_closed()
+        for w in dev.writers:
+            try:
+                w.transport.abort()
+            except Exception:
+                pass
+        try:
+            await asyncio.wait_for(server.wait_closed(), 2)
+        except Exception:
+            pass
     return problems
 
 
